@@ -249,16 +249,16 @@ def place_copy(all_lines, part_lines, tmin=4500, tmax=9000, clearance=2700, step
     return None
 
 
-def add_altloc(lines, rid, delta=(300, -200, 250), backbone=("N", "CA", "C", "O", "OXT", "CB")):
-    """Give the side chain (beyond CB) of residue rid = (chain, num, icode) two alternate locations: the original atoms
-    become alt-loc A, displaced copies follow them as alt-loc B (as in crystallographic files)."""
+def add_altloc(lines, rid, delta=(300, -200, 250), backbone=("N", "CA", "C", "O", "OXT", "CB"), labels=("A", "B")):
+    """Give the side chain (beyond CB) of residue rid = (chain, num, icode) alternate locations: the original atoms become
+    alt-loc labels[0], displaced copies follow them as labels[1], labels[2] ... (as in crystallographic files)."""
     out = []
     for ln in lines:
         if is_atom(ln) and resid(ln) == tuple(rid) and ln[12:16].strip() not in backbone:
             p = pdbio.parse_line(ln)
-            a = ln[:16] + "A" + ln[17:]
-            b = pdbio.set_xyz(ln[:16] + "B" + ln[17:], p.x + delta[0], p.y + delta[1], p.z + delta[2])
-            out += [a, b]
+            out.append(ln[:16] + labels[0] + ln[17:])
+            for k, lab in enumerate(labels[1:], 1):
+                out.append(pdbio.set_xyz(ln[:16] + lab + ln[17:], p.x + k * delta[0], p.y + k * delta[1], p.z + k * delta[2]))
         else:
             out.append(ln)
     return out
